@@ -88,6 +88,16 @@ def fam_pipelines(seed, big):
                 sc["config_after"] = m
                 out.append(sc)
                 i += 1
+    # a signal handler (installed without SA_RESTART) interrupts a wait for one of the commands: the terminator still
+    # returns the last command's status, after all of them have exited
+    for n in (2, 3):
+        for term, stdin, stdout, stderr in (("join", "file", "file", "file"), ("capture", "data", "pipe", "capture"),
+                                            ("popen", "pipe", "pipe", "file")):
+            for nth in (1, 2):
+                sc = pl(i, n, "left", stdin, stdout, stderr, term, 7, rng=rng)
+                sc["wait_eintr"] = nth
+                out.append(sc)
+                i += 1
     # far more input data than all the pipes of the chain hold together (every stage adds to each line, so the volume
     # grows along the chain): the input keeps being delivered in step with the output being drained
     for n in (2, 3):
